@@ -35,6 +35,7 @@ impl<const M: usize> FromStr for KSecretKey<M> {
     type Err = KeyTooLongError;
 
 //@ fn signing_key.rs impl<const M: usize> FromStr for KSecretKey<M> :: from_str
+//@ params raw
 //@ props C08 C06
 //@ ret r
 //@ spec
@@ -48,6 +49,7 @@ impl<const M: usize> FromStr for KSecretKey<M> {
 
 impl AsRef<[u8]> for KSecretKey {
 //@ fn signing_key.rs impl AsRef<[u8]> for KSecretKey :: as_ref
+//@ params
 //@ props C08 C06
 //@ ret r
 //@ spec
@@ -59,6 +61,7 @@ impl AsRef<[u8]> for KSecretKey {
 
 impl AsRef<[u8; SHA256_OUTPUT_LEN]> for KDateKey {
 //@ fn signing_key.rs impl AsRef<[u8; SHA256_OUTPUT_LEN]> for KDateKey :: as_ref
+//@ params
 //@ props C08 C06 C01
 //@ ret r
 //@ spec
@@ -67,6 +70,7 @@ impl AsRef<[u8; SHA256_OUTPUT_LEN]> for KDateKey {
 }
 impl AsRef<[u8; SHA256_OUTPUT_LEN]> for KRegionKey {
 //@ fn signing_key.rs impl AsRef<[u8; SHA256_OUTPUT_LEN]> for KRegionKey :: as_ref
+//@ params
 //@ props C08 C06 C01
 //@ ret r
 //@ spec
@@ -75,6 +79,7 @@ impl AsRef<[u8; SHA256_OUTPUT_LEN]> for KRegionKey {
 }
 impl AsRef<[u8; SHA256_OUTPUT_LEN]> for KServiceKey {
 //@ fn signing_key.rs impl AsRef<[u8; SHA256_OUTPUT_LEN]> for KServiceKey :: as_ref
+//@ params
 //@ props C08 C06 C01
 //@ ret r
 //@ spec
@@ -83,6 +88,7 @@ impl AsRef<[u8; SHA256_OUTPUT_LEN]> for KServiceKey {
 }
 impl AsRef<[u8; SHA256_OUTPUT_LEN]> for KSigningKey {
 //@ fn signing_key.rs impl AsRef<[u8; SHA256_OUTPUT_LEN]> for KSigningKey :: as_ref
+//@ params
 //@ props C08 C06 C01
 //@ ret r
 //@ spec
@@ -92,6 +98,7 @@ impl AsRef<[u8; SHA256_OUTPUT_LEN]> for KSigningKey {
 
 impl KSecretKey {
 //@ fn signing_key.rs impl KSecretKey :: to_kdate
+//@ params date
 //@ props C08 C06
 //@ ret r
 //@ spec
@@ -108,18 +115,21 @@ impl KSecretKey {
         }
 //@ end
 //@ fn signing_key.rs impl KSecretKey :: to_kregion
+//@ params date region
 //@ props C08 C06
 //@ ret r
 //@ spec
     ensures r.k() == spec_kregion(spec_kdate(self.secret(), date), region.spec_bytes()), //# C06 name=shortcut_eq_steps
 //@ end
 //@ fn signing_key.rs impl KSecretKey :: to_kservice
+//@ params date region service
 //@ props C08 C06
 //@ ret r
 //@ spec
     ensures r.k() == spec_kservice(spec_kregion(spec_kdate(self.secret(), date), region.spec_bytes()), service.spec_bytes()), //# C06 name=shortcut_eq_steps
 //@ end
 //@ fn signing_key.rs impl KSecretKey :: to_ksigning
+//@ params date region service
 //@ props C08 C06
 //@ ret r
 //@ spec
@@ -129,6 +139,7 @@ impl KSecretKey {
 
 impl KDateKey {
 //@ fn signing_key.rs impl KDateKey :: to_kregion
+//@ params region
 //@ props C08 C06
 //@ ret r
 //@ spec
@@ -137,12 +148,14 @@ impl KDateKey {
         proof { broadcast use axiom_hmac_len; }
 //@ end
 //@ fn signing_key.rs impl KDateKey :: to_kservice
+//@ params region service
 //@ props C08 C06
 //@ ret r
 //@ spec
     ensures r.k() == spec_kservice(spec_kregion(self.k(), region.spec_bytes()), service.spec_bytes()), //# C06 name=shortcut_eq_steps
 //@ end
 //@ fn signing_key.rs impl KDateKey :: to_ksigning
+//@ params region service
 //@ props C08 C06
 //@ ret r
 //@ spec
@@ -152,6 +165,7 @@ impl KDateKey {
 
 impl KRegionKey {
 //@ fn signing_key.rs impl KRegionKey :: to_kservice
+//@ params service
 //@ props C08 C06
 //@ ret r
 //@ spec
@@ -160,6 +174,7 @@ impl KRegionKey {
         proof { broadcast use axiom_hmac_len; }
 //@ end
 //@ fn signing_key.rs impl KRegionKey :: to_ksigning
+//@ params service
 //@ props C08 C06
 //@ ret r
 //@ spec
@@ -169,6 +184,7 @@ impl KRegionKey {
 
 impl KServiceKey {
 //@ fn signing_key.rs impl KServiceKey :: to_ksigning
+//@ params
 //@ props C08 C06
 //@ ret r
 //@ spec
@@ -201,6 +217,7 @@ mod debug_impls {
     use std::fmt::Debug;
 impl Debug for KSecretKey {
 //@ fn signing_key.rs impl Debug for KSecretKey :: fmt
+//@ params f
 //@ props C08 C17
 //@ ret r
 //@ spec
@@ -212,6 +229,7 @@ impl Debug for KSecretKey {
 
 impl Debug for KDateKey {
 //@ fn signing_key.rs impl Debug for KDateKey :: fmt
+//@ params f
 //@ props C08 C17
 //@ ret r
 //@ spec
@@ -223,6 +241,7 @@ impl Debug for KDateKey {
 
 impl Debug for KRegionKey {
 //@ fn signing_key.rs impl Debug for KRegionKey :: fmt
+//@ params f
 //@ props C08 C17
 //@ ret r
 //@ spec
@@ -234,6 +253,7 @@ impl Debug for KRegionKey {
 
 impl Debug for KServiceKey {
 //@ fn signing_key.rs impl Debug for KServiceKey :: fmt
+//@ params f
 //@ props C08 C17
 //@ ret r
 //@ spec
@@ -245,6 +265,7 @@ impl Debug for KServiceKey {
 
 impl Debug for KSigningKey {
 //@ fn signing_key.rs impl Debug for KSigningKey :: fmt
+//@ params f
 //@ props C08 C17
 //@ ret r
 //@ spec
@@ -264,6 +285,7 @@ mod display_impls {
     use std::fmt::Display;
 impl Display for KSecretKey {
 //@ fn signing_key.rs impl Display for KSecretKey :: fmt
+//@ params f
 //@ props C08 C17
 //@ ret r
 //@ spec
@@ -275,6 +297,7 @@ impl Display for KSecretKey {
 
 impl Display for KDateKey {
 //@ fn signing_key.rs impl Display for KDateKey :: fmt
+//@ params f
 //@ props C08 C17
 //@ ret r
 //@ spec
@@ -286,6 +309,7 @@ impl Display for KDateKey {
 
 impl Display for KRegionKey {
 //@ fn signing_key.rs impl Display for KRegionKey :: fmt
+//@ params f
 //@ props C08 C17
 //@ ret r
 //@ spec
@@ -297,6 +321,7 @@ impl Display for KRegionKey {
 
 impl Display for KServiceKey {
 //@ fn signing_key.rs impl Display for KServiceKey :: fmt
+//@ params f
 //@ props C08 C17
 //@ ret r
 //@ spec
@@ -308,6 +333,7 @@ impl Display for KServiceKey {
 
 impl Display for KSigningKey {
 //@ fn signing_key.rs impl Display for KSigningKey :: fmt
+//@ params f
 //@ props C08 C17
 //@ ret r
 //@ spec
